@@ -158,11 +158,59 @@ func oneOp(r *gen.R, depth int, malformed bool) bson.E {
 	}
 }
 
+// hint, when set by a stream, biases generated conditions to the paths and values of a document.
+type condHint struct {
+	paths []string
+	doc   bson.D
+}
+
+var noHint = &condHint{}
+
+func hintOf(doc bson.D) *condHint {
+	h := &condHint{doc: doc}
+	docPaths(doc, "", &h.paths)
+	return h
+}
+
+// hintedOperand returns a value found at the path (or one of its array elements).
+func (h *condHint) operandAt(r *gen.R, path string) (interface{}, bool) {
+	if h == nil || h.doc == nil {
+		return nil, false
+	}
+	v := bsonkit.Get(&h.doc, path)
+	if v == bsonkit.Missing {
+		return nil, false
+	}
+	if a, ok := v.(bson.A); ok && len(a) > 0 && r.P(60) {
+		return a[r.N(len(a))], true
+	}
+	return v, true
+}
+
 // fieldConds returns n field conditions.
 func fieldConds(r *gen.R, depth int, malformed bool, n int) bson.D {
 	var d bson.D
 	for i := 0; i < n; i++ {
 		key := r.Path()
+		h, _ := r.Hint.(*condHint)
+		if h == nil {
+			h = noHint
+		}
+		if len(h.paths) > 0 && r.P(60) {
+			key = h.paths[r.N(len(h.paths))]
+			if v, ok := h.operandAt(r, key); ok && r.P(70) {
+				// a condition that is likely to hold on the hinted document
+				switch r.N(5) {
+				case 0:
+					d = append(d, bson.E{Key: key, Value: bson.D{{Key: []string{"$eq", "$gte", "$lte", "$in"}[r.N(3)], Value: v}}})
+				case 1:
+					d = append(d, bson.E{Key: key, Value: bson.D{{Key: "$in", Value: bson.A{r.Scalar(), v}}}})
+				default:
+					d = append(d, bson.E{Key: key, Value: v})
+				}
+				continue
+			}
+		}
 		if malformed && r.P(10) {
 			key = []string{"", "a.", ".a", "a..b", "a.$", "0"}[r.N(6)]
 		}
@@ -257,7 +305,11 @@ func init() {
 		Gen: func(r *gen.R, idx int) []run.Case {
 			malformed := r.P(15)
 			doc := r.Doc(3, r.P(30), r.P(50))
+			if r.P(70) {
+				r.Hint = hintOf(doc)
+			}
 			q := Filter(r, 2, malformed)
+			r.Hint = nil
 			impl := matchReply(doc, q)
 			tags := []string{}
 			if malformed {
